@@ -15,9 +15,11 @@ import (
 	"strings"
 	"time"
 
+	"github.com/syndtr/goleveldb/leveldb/storage"
 	mwdb "massnet.org/mass-wallet/masswallet/db"
 	"vh/dbseam"
 	"vh/env"
+	"vh/faultstor"
 	"vh/proto"
 	"vh/world"
 )
@@ -120,6 +122,7 @@ func (m *Model) Run(hist []string) *proto.Result {
 	res := &proto.Result{Info: map[string]int{}}
 	plan := dbseam.NoPlan
 	mode := ""
+	lowAt := 0
 	var base []string
 	for _, e := range hist {
 		if strings.HasPrefix(e, "#") {
@@ -130,6 +133,10 @@ func (m *Model) Run(hist []string) *proto.Result {
 				// orderly stop + start after the history (no planned crash)
 			case "crash":
 				plan.CrashCommit, _ = strconv.Atoi(p[1])
+			case "lfail", "ldry":
+				// a journal write of the wallet database fails BELOW the ldb backend (faultstor);
+				// "ldry" only counts the journal writes of the history
+				lowAt, _ = strconv.Atoi(p[1])
 			case "fail":
 				plan.FailAt, _ = strconv.Atoi(p[1])
 				plan.FailRepeat = 1
@@ -153,7 +160,13 @@ func (m *Model) Run(hist []string) *proto.Result {
 	dir := filepath.Join(env.Scratch(), fmt.Sprintf("c06-%d", m.seq))
 	defer os.RemoveAll(dir)
 	var seam *dbseam.DB
-	w, err := world.New(dir, world.Options{NoB: m.O.NoB && !m.O.Tasks, SeedName: m.O.Seed, Wrap: func(u mwdb.DB) mwdb.DB {
+	var low *faultstor.Storage
+	var lowMem storage.Storage
+	if mode == "lfail" || mode == "ldry" {
+		low = faultstor.New()
+		lowMem = low
+	}
+	w, err := world.New(dir, world.Options{NoB: m.O.NoB && !m.O.Tasks, SeedName: m.O.Seed, MemStorage: lowMem, Wrap: func(u mwdb.DB) mwdb.DB {
 		ns := dbseam.Wrap(u, dbseam.NoPlan)
 		if seam != nil {
 			// a restart inside the history re-opens the database: plan and counters carry over
@@ -179,6 +192,11 @@ func (m *Model) Run(hist []string) *proto.Result {
 	defer func() { w.Close() }()
 	seam.Calls, seam.Commits = 0, 0
 	seam.Plan = plan
+	if low != nil {
+		low.Reset()
+		low.FailAt = lowAt
+		low.Armed = mode == "lfail"
+	}
 	crashed := false
 	removeAcked := false
 	var failedOps []string
@@ -208,6 +226,17 @@ func (m *Model) Run(hist []string) *proto.Result {
 			}()
 			ok, aerr = w.Apply(ev)
 		}()
+		if low != nil && low.Failed > 0 && (aerr != nil || !ok) {
+			// the journal write failed below the backend: LevelDB refuses writes until the database
+			// is reopened, so whatever is attempted now may fail - but it has to fail cleanly
+			res.Info["events_failed_after_low_fault"]++
+			if len(w.Panics) > 0 {
+				res.Viol = append(res.Viol, w.Panics...)
+				res.Outcome = "died"
+				return res
+			}
+			continue
+		}
 		if aerr != nil && mode == "fail" && ev == "z" && seam.Injected > injectedBefore {
 			// the process did not come up: the operator starts it again (the plan stays armed)
 			res.Info["restarts_failed_under_fault"]++
@@ -276,6 +305,16 @@ func (m *Model) Run(hist []string) *proto.Result {
 		// the planned commit does not exist in this run: it proceeds like the dry run
 		res.Info["crash_not_reached"] = 1
 		mode = ""
+	}
+	if low != nil {
+		res.Info["journal_writes"] = low.Writes
+		res.Info["low_faults_injected"] = low.Failed
+		low.Armed = false
+		if mode == "lfail" && low.Failed > 0 {
+			mode = "crash" // the operator restarts the wallet: same recovery and oracle as after a crash
+		} else {
+			mode = ""
+		}
 	}
 	switch mode {
 	case "restart":
